@@ -21,6 +21,8 @@ THEOREMS = [
     "Nix.C19.C19_roundtrip_source_formats",
     "Nix.C19.C19_no_unguarded_stamp",
     "Nix.C19.C19_unguarded_would_stamp",
+    "Nix.C19.C19_foreign_calls",
+    "Nix.C19.C19_no_foreign_elsewhere",
     "Nix.C19.C19_created_fixed",
     "Nix.C19.C19_monotone",
     "Nix.C19.C19_monotone_from_open",
@@ -1790,17 +1792,16 @@ def correspondence(ctx):
             "samples": samples, "distribution": dist, "disagreements": disagreements, "exhaustive": False}
 
 
-DELEGATES = {("RangeDimension", "label"): ("DimensionLink.label", ("DataArray", "DataFrame")),
-             ("RangeDimension", "unit"): ("DimensionLink.unit", ("DataArray", "DataFrame")),
-             ("Section", "__setitem__"): ("Property.values", ("Property",))}
-
-
 def table_sweep(ctx, dist):
     """the generated table of touch states against the implementation, for EVERY public member of every class: the
     member sweep of c19_off with the switch ON records which stored stamps each call changed; the model's table
     (driver op `resolve`: the outcomes of the member Python's MRO reaches) says which it may / must change:
     no outcome with a touch -> nothing; `self` on some path -> at most the object itself, and exactly it (= the clock)
     when every returning path has it and the call was accepted; `linked` -> exactly one data object; created_at never.
+    A member whose body invokes a stamping member of ANOTHER object (`Member.foreign`, by name: `section[name] = v` is
+    `property.values = v`, a linked dimension's `label` / `unit` is the DimensionLink setter, ...) may in addition
+    stamp such an object: one whose class has a member of that name that stamps itself (or, for a name that stamps a
+    linked object in some class, a data object) - every member with an empty `foreign` may stamp nothing else.
     -> (evaluations, disagreements, distinct (class, member, accepted))"""
     from . import c19_off
     recs = []
@@ -1812,6 +1813,22 @@ def table_sweep(ctx, dist):
     out = []
     seen = set()
     kinds = {}
+    memo = {}
+
+    def delegate_may_stamp(cls, names):
+        """does the table let a call of one of `names` stamp an object of class `cls`: the class has a member of
+        that name with a path that stamps the object itself, or some class has one that stamps a linked data object"""
+        key = (cls, tuple(names))
+        if key not in memo:
+            qs = [["resolve", cls, f] for f in names] + [["resolve", "DimensionLink", f] for f in names]
+            ans = core.run_driver(PROP, qs)
+            own = any(isinstance(a, dict) and a.get("ok") and any(o[1] in ("self", "always") for o in a["ok"]["outcomes"])
+                      for a in ans[:len(names)])
+            linked = cls in ("DataArray", "DataFrame") and any(
+                isinstance(a, dict) and a.get("ok") and any(o[1] == "linked" for o in a["ok"]["outcomes"])
+                for a in ans[len(names):])
+            memo[key] = own or linked
+        return memo[key]
     for r in recs:
         t = table[(r["cls"], r["member"])]
         case = {"member_sweep": {k: r[k] for k in ("cls", "member", "kind", "on", "recipe", "shown", "accepted", "variant")}}
@@ -1834,15 +1851,13 @@ def table_sweep(ctx, dist):
         kinds[key] = kinds.get(key, 0) + 1
         pred = {"touches": touches}
         bad = None
-        # a member that hands the change on to a public member of ANOTHER object: that object's own table entry says
-        # what is stamped (`dim.label = ...` / `dim.unit = ...` of a linked RangeDimension is DimensionLink.label /
-        # .unit: the linked data object; `section[name] = values` for a name in use is `property.values = values`)
-        via = DELEGATES.get((r["cls"], r["member"]))
-        if via is not None and upd and not cre:
-            ok_cls = via[1]
-            if len(upd) == 1 and upd[0][1] in ok_cls and upd[0][3] == r["now"]:
+        # a member that hands the change on to a stamping member of ANOTHER object: that object's own table entry
+        # says what is stamped
+        others = [c for c in upd if c[0] != r["self"]]
+        if others and t.get("foreign") and not cre:
+            if all(c[3] == r["now"] and delegate_may_stamp(c[1], t["foreign"]) for c in others):
                 kinds["delegated"] = kinds.get("delegated", 0) + 1
-                continue
+                upd = [c for c in upd if c[0] == r["self"]]
         if cre:
             bad = "created_at changed"
         elif not (set(touches) - {"none"}):
